@@ -160,7 +160,8 @@ def crd(xyz_bohr, title="title", resnums=None, resnames=None, attypes=None, segi
 
 # ---- VASP 5 POSCAR / CHGCAR / LOCPOT ----------------------------------------------------------------------
 
-def poscar(z, xyz_bohr, cell_bohr, title="vasp", scale=1.0, direct=True, selective=False, grid=None, grid_kind=None):
+def poscar(z, xyz_bohr, cell_bohr, title="vasp", scale=1.0, direct=True, selective=False, grid=None, grid_kind=None, mode_word=None):
+    """mode_word: the coordinate-mode line; VASP looks at its first character only (C, c, K, k: Cartesian; anything else: direct)."""
     order = []
     groups = []
     for zi in z:
@@ -175,7 +176,7 @@ def poscar(z, xyz_bohr, cell_bohr, title="vasp", scale=1.0, direct=True, selecti
     out.append(" ".join(f"{sum(1 for zi in z if zi == g):4d}" for g in groups))
     if selective:
         out.append("Selective dynamics")
-    out.append("Direct" if direct else "Cartesian")
+    out.append(mode_word or ("Direct" if direct else "Cartesian"))
     for i in order:
         r = np.linalg.solve(cell_bohr.T, xyz_bohr[i]) if direct else xyz_bohr[i] / ANG / scale
         out.append(f" {r[0]:19.16f} {r[1]:19.16f} {r[2]:19.16f}" + ("   T   T   T" if selective else ""))
